@@ -1,3 +1,4 @@
+import Mdsort.Proofs.Opts
 import Mdsort.Proofs.Lex
 import Mdsort.Proofs.LexLiteral
 import Mdsort.Proofs.LexFuel
@@ -484,6 +485,76 @@ theorem C14_reject_defs_text (env : PEnv) (orc : EvalOracles) (rxOk : Pat → Bo
     let p := mainText env orc rxOk defs confText files input
     (runPlan plan p w 0 []).1.1 = 1 ∧ (runPlan plan p w 0 []).1.2.error = true ∧ Proofs.callsOf plan p w = [] :=
   Proofs.MainText.mainText_invalidDefs env orc rxOk defs confText files input w plan h
+
+/-! ## The command line (package ce13): refused before the configuration is opened -/
+
+/-- A command line `main` refuses - an unknown option, a missing option argument, an operand other than `-`, more than
+one operand (usage), `-D` without `=`, `-D` with the name `path` or a name given twice - ends the run with exit status 1
+and WITHOUT ANY CALL: the configuration file is not opened, no maildir, no message, no process, under every environment
+and fault plan.  (`getopt` and `warnx` write to stderr, which is not a modelled call.) -/
+theorem C14_usage_error_no_call (permute : Bool) (args : List Bytes) (raw : RawEnv) (env : PEnv) (orc : EvalOracles)
+    (rxOk : Pat → Bool) (confText : Bytes) (files : Files) (input : Bytes) (w : World) (plan : Plan) (e : ArgsErr)
+    (h : parseArgs permute args = .error e) :
+    let p := mainArgs permute args raw env orc rxOk confText files input
+    (runPlan plan p w 0 []).1.1 = 1 ∧ Proofs.callsOf plan p w = [] ∧ (runPlan plan p w 0 []).2.1 = w := by
+  intro p
+  have hp : p = .ret (earlyExit files) := Proofs.Opts.mainArgs_refused permute args raw env orc rxOk confText files input e h
+  rw [hp]
+  exact ⟨by rw [(Proofs.Opts.ret_run plan _ w).1]; rfl, (Proofs.Opts.ret_run plan _ w).2, rfl⟩
+
+/-- Which command lines are refused, after any accepted option words (`items`, `Spec.cmdMeaning items {} = .ok o`):
+(1) a letter outside `D:df:nv` - alone, clustered after flag letters, `--long`, `-:` - whatever follows: usage;
+(2) `-f` / `-D` as the last letter of the last word: usage; (3) `-D` with an argument without `=`: "missing macro
+separator"; (4) operands: everything but "none" and "exactly `-`" is usage (also after `--`); (5) the documented
+`-D` errors come out of `Spec.cmdline` (`C05_options_select_mode`): the name `path`, a name twice. -/
+theorem C14_usage_causes (permute : Bool) (items : List Spec.CmdItem) (hwf : ∀ it ∈ items, it.wf = true) (o : Opts)
+    (hm : Spec.cmdMeaning items {} = .ok o) (ls : Bytes) (hl : ls.all Spec.isFlagLetter = true) :
+    (∀ c r rest, optLookup Gen.optstring c = none → (ls = [] → ((45 :: c :: r : Bytes) == dashdash) = false) →
+      parseArgs permute (Spec.renderCmd items ++ (45 :: (ls ++ c :: r)) :: rest) = .error .usage) ∧
+    (∀ c, optLookup Gen.optstring c = some true → c ≠ 45 →
+      parseArgs permute (Spec.renderCmd items ++ [45 :: (ls ++ [c])]) = .error .usage) ∧
+    (∀ a rest, a.contains 61 = false →
+      parseArgs permute (Spec.renderCmd items ++ (45 :: (ls ++ [68])) :: a :: rest) = .error (.macroSeparator a)) ∧
+    (∀ ops, ops ≠ [] → ops ≠ [[45]] →
+      parseArgs permute (Spec.renderCmd items ++ dashdash :: ops) = .error .usage ∧
+      (ops.all isNonOption = true → parseArgs permute (Spec.renderCmd items ++ ops) = .error .usage)) := by
+  refine ⟨fun c r rest hc hnd => Proofs.Opts.parseArgs_unknown_option permute items hwf o hm ls hl c r rest hc hnd,
+    fun c hc h45 => Proofs.Opts.parseArgs_missing_argument permute items hwf o hm ls hl c hc h45,
+    fun a rest ha => Proofs.Opts.parseArgs_missing_separator permute items hwf o hm ls hl a ha rest, ?_⟩
+  intro ops h1 h2
+  have hu : operandStep o ops = .error .usage := (Proofs.Opts.operandStep_usage o ops).2 ⟨h1, h2⟩
+  refine ⟨?_, fun hops => ?_⟩
+  · rw [Proofs.Opts.parseArgs_words_dashdash permute items hwf ops, hm]; simp only [hu]
+  · rw [Proofs.Opts.parseArgs_words_operands permute items hwf ops hops, hm]; simp only [hu]
+
+/-- The option letters, evaluated on the regenerated option string: `D` and `f` take an argument, `d`, `n`, `v` do not,
+nothing else is an option (in particular not `-`, `:`, `h`, `V`, `x`). -/
+example :
+    Gen.optstring = "D:df:nv".toUTF8.toList ∧
+    (List.range 256).filter (fun c => optLookup Gen.optstring c.toUInt8 == some true) = [68, 102] ∧
+    (List.range 256).filter (fun c => optLookup Gen.optstring c.toUInt8 == some false) = [100, 110, 118] := by
+  decide +kernel
+
+/-- Non-vacuity: each refusal on a concrete command line, also with a valid `-n -f conf` in front and `-` behind. -/
+example :
+    parseArgs true ["-x".toUTF8.toList] = .error .usage ∧
+    parseArgs true ["-n".toUTF8.toList, "-f".toUTF8.toList, "conf".toUTF8.toList, "-dx".toUTF8.toList, "-".toUTF8.toList] = .error .usage ∧
+    parseArgs true ["--foo".toUTF8.toList] = .error .usage ∧ parseArgs true ["-d-".toUTF8.toList] = .error .usage ∧
+    parseArgs true ["-:".toUTF8.toList] = .error .usage ∧
+    parseArgs true ["-n".toUTF8.toList, "-f".toUTF8.toList] = .error .usage ∧ parseArgs true ["-nD".toUTF8.toList] = .error .usage ∧
+    parseArgs true ["-D".toUTF8.toList, "a".toUTF8.toList] = .error (.macroSeparator "a".toUTF8.toList) ∧
+    parseArgs true ["-Da".toUTF8.toList, "-x".toUTF8.toList] = .error (.macroSeparator "a".toUTF8.toList) ∧
+    parseArgs true ["-x".toUTF8.toList, "-Da".toUTF8.toList] = .error .usage ∧
+    parseArgs true ["-Dpath=x".toUTF8.toList] = .error (.macroInvalid "path".toUTF8.toList) ∧
+    parseArgs true ["-Da=1".toUTF8.toList, "-D".toUTF8.toList, "a=2".toUTF8.toList] = .error (.macroInvalid "a".toUTF8.toList) ∧
+    parseArgs true ["x".toUTF8.toList] = .error .usage ∧ parseArgs true ["-".toUTF8.toList, "-".toUTF8.toList] = .error .usage ∧
+    parseArgs true ["--".toUTF8.toList, "-n".toUTF8.toList] = .error .usage ∧
+    parseArgs true ["".toUTF8.toList] = .error .usage ∧
+    (parseArgs true ["-f".toUTF8.toList, "--".toUTF8.toList, "--".toUTF8.toList, "-".toUTF8.toList]).toOption.map
+      (fun o => (o.confpath, o.stdinMode)) = some (some "--".toUTF8.toList, true) ∧
+    (parseArgs true ["-D=v".toUTF8.toList, "-Da=b=c".toUTF8.toList, "-Dmatch=".toUTF8.toList]).toOption.map (·.defs) =
+      some [([], "v".toUTF8.toList), ("a".toUTF8.toList, "b=c".toUTF8.toList), ("match".toUTF8.toList, [])] := by
+  decide +kernel
 
 /-- Accepted text runs its tree: when `parseConfig` accepts, its blocks are trees of the evaluator (no
 empty block: `confBlocksOf` succeeds and loses nothing, `toPBlocks conf = blocks`) and `mainText` IS
